@@ -312,7 +312,7 @@ impl Prop for C06 {
     fn assumptions(&self) -> Vec<String> {
         vec!["entry sets are duplicate-free (the documented precondition of from_triplets); raw arrays given to from_vecs are well-formed".into()]
     }
-    fn stream_len(&self) -> usize {
+    fn stream_len(&self, _tier: Tier) -> usize {
         400
     }
     fn random_cases(&self, tier: Tier) -> usize {
